@@ -115,9 +115,7 @@ TcpFails(s, pseudo, sumExempt) ==
   ELSE LET t == DecTcp(s) IN
        IF ~(20 <= t.hl /\ t.hl <= Len(s)) THEN {"tcp.dataOffset"}
        ELSE Chk(sumExempt \/ Verifies(SumFrom(s, 0, Len(s), pseudo)), "tcp.checksum")
-            \cup (IF OptWalk(t.opts, 1)
-                  THEN Chk(FlagSyn(t) \/ KindsOf(t.opts) \cap {2, 3, 4} = {}, "tcp.options.synonly")
-                  ELSE {"tcp.options"})
+            \cup Chk(OptWalk(t.opts, 1), "tcp.options")
 
 \* UDP (RFC 768): sport(2) dport(2) length(2) cksum(2)
 DecUdp(s) ==
